@@ -196,9 +196,9 @@ func runC13(c *Ctx) {
 		iters := 120
 		reps := 2
 		if c.Thorough {
-			g = 32
+			g = 24
 			iters = 300
-			reps = 6
+			reps = 4
 		}
 		if v := c.Arg("g", ""); v != "" {
 			fmt.Sscan(v, &g)
